@@ -67,6 +67,7 @@ Inl(t, k)  == Nd(t, 0, "", "", k)
 
 InlKinds  == {"em", "st", "del", "link", "code", "math"}
 ListKinds == {"ul", "ol"}
+FmtKinds  == {"em", "st", "del", "code"}      \* inline constructs that map to run formatting
 
 Words == {"w1", "w2", "w3", "w4"}
 AtomClass(a) ==
@@ -202,8 +203,9 @@ CIn(x, host, par, o) ==
   LET pre == IF host = "p" THEN "" ELSE host \o "/" IN
   CASE x.t = "txt" -> LET c == AtomClass(x.x)
                       IN IF c = "w" \/ (c = "bare" /\ ~o.gfm) THEN {} ELSE {c}
-    [] x.t = "sb"  -> IF host # "p" THEN {pre \o "sb"} ELSE IF par = "" THEN {"sb"} ELSE {par \o ">sb"}
-    [] OTHER       -> (IF host # "p" THEN {pre \o x.t} ELSE IF par = "" THEN {x.t} ELSE {x.t, par \o ">" \o x.t})
+    [] x.t = "sb"  -> IF host # "p" THEN {pre \o "sb"} ELSE IF par = "" THEN {"sb"} ELSE {par \o ">sb", "inl>sb"}
+    [] OTHER       -> (IF host # "p" THEN {pre \o x.t} \cup (IF x.t \in FmtKinds THEN {pre \o "fmt"} ELSE {})
+                       ELSE IF par = "" THEN {x.t} ELSE {x.t, par \o ">" \o x.t, "inl>inl"})
                       \cup (IF x.t = "del" /\ ~o.gfm THEN {"opt:gfm-off"} ELSE {})
                       \cup (IF x.t = "math" /\ ~o.math THEN {"opt:math-off"} ELSE {})
                       \cup CI(x.k, host, x.t, o)
@@ -236,7 +238,7 @@ CB(b, par, host, o) ==
     [] b.t = "mathb" -> me \cup (IF ~o.math THEN {"opt:math-off"} ELSE {}) \cup CI(b.k, "mathb", "", o)
     [] b.t = "tbl" -> me \cup (IF ~o.gfm THEN {"opt:gfm-off"} ELSE {}) \cup (IF ~o.tables THEN {"opt:tables-off"} ELSE {})
                          \cup (IF \E j \in 1..Len(b.k[1].k) : b.k[1].k[j].a # "n" THEN {"tbl:al"} ELSE {})
-                         \cup UNION {UNION {CI(b.k[i].k[j].k, "cell", "", o) : j \in 1..Len(b.k[i].k)} : i \in 1..Len(b.k)}
+                         \cup UNION {UNION {CI(b.k[i].k[j].k, IF o.gfm THEN "cell" ELSE "p", "", o) : j \in 1..Len(b.k[i].k)} : i \in 1..Len(b.k)}
     [] OTHER -> {"?"}
 
 Classes(b, o) == CB(b, "", "", o)
@@ -375,15 +377,23 @@ JudgeFid(ast, o, body) ==
                flds == UNION {Match(exp[i][j], body[off + j]) : j \in 1..Len(exp[i])}
            IN {[fld |-> f, ks |-> Classes(ast[i], o)] : f \in flds} : i \in 1..n}
   ELSE
-    LET pre == PreN(exp, body, 1, 0)
-        offlo == SumLen(exp, pre)
-        suf == SufN(exp, body, pre, offlo, n, Len(body))
+    \* the block structure differs: find the AST blocks whose expected Word blocks are found at the start and at
+    \* the end of the body; the deviation lies in between.  Both orders of matching are tried (a shortened
+    \* region may match its neighbour's blocks by coincidence) and the union of the two regions is blamed.
+    LET pre1 == PreN(exp, body, 1, 0)
+        suf1 == SufN(exp, body, pre1, SumLen(exp, pre1), n, Len(body))
+        suf2 == SufN(exp, body, 0, 0, n, Len(body))
+        pre2 == PreN([i \in 1..(n - suf2) |-> exp[i]],
+                     SubSeq(body, 1, Len(body) - (SumLen(exp, n) - SumLen(exp, n - suf2))), 1, 0)
+        pre == IF pre1 < pre2 THEN pre1 ELSE pre2
+        suf == IF suf1 < suf2 THEN suf1 ELSE suf2
         mid == (pre + 1)..(n - suf)
+        offlo == SumLen(exp, pre)
         sufLen == SumLen(exp, n) - SumLen(exp, n - suf)
         obsMid == SubSeq(body, offlo + 1, Len(body) - sufLen)
         ew == CatSeqs([i \in 1..(n - suf - pre) |-> CatSeqs([j \in 1..Len(exp[pre + i]) |-> EWords(exp[pre + i][j])])])
         ow == CatSeqs([j \in 1..Len(obsMid) |-> OWords(obsMid[j])])
-        allweak == \A i \in mid : \A j \in 1..Len(exp[i]) : exp[i][j].k = "weak"
+        allweak == mid # {} /\ \A i \in mid : \A j \in 1..Len(exp[i]) : exp[i][j].k = "weak"
         flds == (IF allweak THEN {} ELSE {"blocks"}) \cup WordDiff(ew, ow)
         ks == UNION {Classes(ast[i], o) : i \in mid}
     IN {[fld |-> f, ks |-> ks] : f \in flds}
